@@ -6,6 +6,15 @@ end is a raw ssl.SSLObject played by the harness.
                     (no lock above: ordering rests on `_data_deque` + synchronous write to the SSL object + the
                     transport send lock)
   target tlsclient  N tasks call AsyncTCPNetworkClient.send_packet, the client's transport being the TLS transport
+  target tlsserver  N tasks call send_packet on the server-side client object of an AsyncTCPNetworkServer(ssl=...)
+                    (in-memory listener; the peer is a client-side SSLObject) while the server itself reads requests
+
+Readers (`readers`, optional): tasks calling recv() / recv_into() on the same TLS transport (tlsclient: recv_packet();
+tlsserver: the server's own request receiver is the reader), started before / between / after the senders, parked with
+nothing to read, or woken by traffic of the peer (`peer_msgs`: application data encrypted by the peer, handed over in
+pieces cut at arbitrary ciphertext offsets, so that a reader goes through the SSLWantReadError branch of
+`_retry_ssl_method` again and again while senders hold / queue on the transport send lock).  At the end the peer sends
+close_notify and every reader must come back with EOF (a reader that never does = the loop runs dry = `deadlock`).
 
 The ciphertext is handed to the peer in exactly the pieces and the order the (scripted, partial, suspending)
 lower transport writes them; the peer decrypts as it goes.  Two flushes overlapping on the lower transport would
@@ -17,6 +26,10 @@ Lines:  send s<t> <j> <hex of the plaintext of this call>
         tls.ret s<t>                           that send_all() returned
         sent s<t> <j> ok
         plain <hex>                            everything the peer decrypted;  rx … = parsed back into packets
+        rd.call r<k> <n> / rd.ret r<k> <n> <hex|eof|error>    the n-th read of reader k (tlsserver: `rd.ret srv n <hex>`)
+        peer.msg <hex plaintext> / peer.close  what the peer sent
+        note interleaved-flush <a> <b>         the lower transport wrote a piece of b's blob inside a's blob
+        note unlocked-flush <who>              lower send_all() called by a task that does not own the TLS send lock
 TLS 1.3 record accounting (harness side, to know how much plaintext a blob carries): an application-data record is
 5 header bytes + plaintext + 1 type byte + 16 tag bytes.
 """
@@ -24,6 +37,7 @@ from __future__ import annotations
 
 import asyncio
 import os
+import re
 import ssl
 import subprocess
 from pathlib import Path
@@ -66,16 +80,34 @@ def contexts() -> tuple[ssl.SSLContext, ssl.SSLContext]:
     return _ctx
 
 
-class Peer:
-    """the other end: a server-side SSLObject fed with the ciphertext pieces as they are written"""
+VIA_CLIENT = ("tlsclient", "tlsserver")
 
-    def __init__(self) -> None:
+
+class Peer:
+    """the other end: a raw SSLObject (server side, or client side for the tlsserver target) fed with the ciphertext
+    pieces as they are written"""
+
+    def __init__(self, server_side: bool = True) -> None:
         self.inc = ssl.MemoryBIO()
         self.out = ssl.MemoryBIO()
-        self.obj = contexts()[1].wrap_bio(self.inc, self.out, server_side=True)
+        if server_side:
+            self.obj = contexts()[1].wrap_bio(self.inc, self.out, server_side=True)
+        else:
+            self.obj = contexts()[0].wrap_bio(self.inc, self.out, server_side=False, server_hostname="localhost")
         self.handshaken = False
         self.plain = bytearray()
         self.error: str | None = None
+        self.closed = False
+        self.sent = bytearray()
+
+    def start(self) -> bytes:
+        """client side: the ClientHello"""
+        try:
+            self.obj.do_handshake()
+            self.handshaken = True
+        except ssl.SSLWantReadError:
+            pass
+        return self.out.read()
 
     def feed(self, piece: bytes) -> bytes:
         """returns what the peer wants to send back"""
@@ -99,7 +131,24 @@ class Peer:
                         break
                     self.plain += d
         except ssl.SSLError as e:
-            self.error = f"{type(e).__name__}:{getattr(e, 'reason', '')}"
+            if not self.closed:         # after our own close_notify only the library's closing handshake follows
+                self.error = f"{type(e).__name__}:{getattr(e, 'reason', '')}"
+        return self.out.read()
+
+    def write(self, data: bytes) -> bytes:
+        """application data from the peer: returns the ciphertext"""
+        if self.error or self.closed or not self.handshaken:
+            return b""
+        self.obj.write(data)
+        self.sent += data
+        return self.out.read()
+
+    def close_notify(self) -> bytes:
+        self.closed = True
+        try:
+            self.obj.unwrap()
+        except ssl.SSLError:
+            pass
         return self.out.read()
 
 
@@ -110,18 +159,28 @@ class PipeTransport(env.MemTransport):
         super().__init__(*a, **kw)
         self.peer = peer
         self._data_ev = asyncio.Event()
-        self.on_write = self._deliver
         self.blobs: list[tuple[str, bytes]] = []
+        self.nflush = 0
+        self.mid: int | None = None        # the flush that has written a part of its blob, not all of it
+        self.mid_who = ""
+        self.interleaved: str | None = None
+        self.unlocked: str | None = None
+        self.send_lock: Any = None         # the logged TLS send lock, when known
+        self.eof = False                   # the peer has closed its end (after its close_notify)
 
     def _deliver(self, piece: bytes) -> None:
         back = self.peer.feed(piece)
         if back:
-            self.inbox.append(back)
+            self.push(back)
+
+    def push(self, data: bytes) -> None:
+        if data:
+            self.inbox.append(bytes(data))
             self._data_ev.set()
 
     async def recv(self, bufsize: int) -> bytes:
         while not self.inbox:
-            if self._closing:
+            if self._closing or self.eof:
                 return b""
             self._data_ev.clear()
             await self._data_ev.wait()
@@ -136,12 +195,36 @@ class PipeTransport(env.MemTransport):
         self._data_ev.set()
         await asyncio.sleep(0)
 
+    async def _write_all(self, who: str, data: bytes) -> None:
+        self.nflush += 1
+        fid = self.nflush
+        while True:
+            n, p = self.script.next()
+            n = max(1, n)
+            piece, data = data[:n], data[n:]
+            if piece:
+                if self.mid is not None and self.mid != fid and self.interleaved is None:
+                    self.interleaved = f"{self.mid_who} {who}"
+                self.wire += piece
+                self.writes.append((who, piece))
+                self._deliver(piece)
+                if data:
+                    self.mid, self.mid_who = fid, who
+                elif self.mid == fid:
+                    self.mid = None
+            await env.pause(p)
+            if not data:
+                return
+
     async def send_all(self, data) -> None:
         who = env.cur()
         data = bytes(data)
         self.blobs.append((who, data))
         n = plain_bytes(data)
         self.trace.ev(f"tls.xmit {who} {n}")
+        if self.trace.enabled and self.send_lock is not None and self.unlocked is None \
+                and getattr(self.send_lock, "holder", who) != who:
+            self.unlocked = who
         self.active += 1
         if self.active > 1:
             self.overlap = True
@@ -163,7 +246,108 @@ def plain_bytes(blob: bytes) -> int:
     return n
 
 
+class _Run:
+    """what the three TLS targets share: the peer's traffic, the reader tasks, the end of the run"""
+
+    def __init__(self, case: dict, trace: env.Trace, tr: PipeTransport, peer: Peer) -> None:
+        self.case, self.trace, self.tr, self.peer = case, trace, tr, peer
+
+    def rd(self, line: str) -> None:
+        # reader / peer lines are harness-side observations: written whatever `trace.enabled` says
+        self.trace.lines.append(line)
+
+    @staticmethod
+    async def sleep_until(at: float) -> None:
+        now = asyncio.get_running_loop().time()
+        if at > now:
+            await asyncio.sleep(at - now)
+
+    def end_tick(self) -> float:
+        ticks = [float(r.get("delay", 0)) for r in self.case.get("readers", [])]
+        ticks += [float(m.get("at", 0)) for m in self.case.get("peer_msgs", [])]
+        return max(ticks, default=0.0)
+
+    def msg_bytes(self, m: dict) -> bytes:
+        if "raw" in m:
+            return bytes.fromhex(m["raw"])
+        return b"".join(R.expected_chunks(self.case["spec"], h) for h in m.get("packets", []))
+
+    async def peer_task(self) -> None:
+        for m in self.case.get("peer_msgs", []):
+            await self.sleep_until(float(m.get("at", 0)))
+            await env.pause(max(0, int(m.get("pre", 0))))
+            data = self.msg_bytes(m)
+            ct = self.peer.write(data)
+            if not ct:
+                continue
+            self.rd(f"peer.msg {core.hexs(data)}")
+            i = 0
+            for n in m.get("cuts", []):
+                if i >= len(ct):
+                    break
+                n = max(1, int(n))
+                self.tr.push(ct[i:i + n])
+                i += n
+                await env.pause(int(m.get("gap", 1)))
+            if i < len(ct):
+                self.tr.push(ct[i:])
+
+    def close_peer(self) -> None:
+        # close_notify, then the peer closes its end of the connection (EOF on the lower transport)
+        self.rd("peer.close")
+        self.tr.push(self.peer.close_notify())
+        self.tr.eof = True
+        self.tr._data_ev.set()
+
+    async def reader(self, name: str, r: dict, recv_once, packets: bool) -> None:
+        await self.sleep_until(float(r.get("delay", 0)))
+        await env.pause(max(0, int(r.get("pre", 0))))
+        n = 0
+        count = int(r.get("count", 0))
+        while True:
+            self.rd(f"rd.call {name} {n}")
+            try:
+                d = await recv_once()
+            except asyncio.CancelledError:
+                self.rd(f"rd.ret {name} {n} cancelled")
+                raise
+            except Exception as e:
+                self.rd(f"rd.ret {name} {n} {R.exc_enum(e)}")
+                return
+            if not packets and not d:
+                self.rd(f"rd.ret {name} {n} eof")
+                return
+            self.rd(f"rd.ret {name} {n} {R.packet_hex(self.case['spec'], d) if packets else bytes(d).hex()}")
+            n += 1
+            if count and n >= count:
+                return
+            await env.pause(int(r.get("gap", 0)))
+
+
+def _finish(case: dict, trace: env.Trace, box: dict, res: Any, loop: env.VLoop) -> list[str]:
+    lines = list(trace.lines)
+    if isinstance(res, env.Deadlock) or loop.deadlocked:
+        lines.append("deadlock")
+    peer = box.get("peer")
+    if peer is not None:
+        tr = box["tr"]
+        if peer.error:
+            lines.append(f"peer-error {peer.error}")
+        if tr.overlap:
+            lines.append("note overlapping-flushes")
+        if tr.interleaved:
+            lines.append(f"note interleaved-flush {tr.interleaved}")
+        if tr.unlocked:
+            lines.append(f"note unlocked-flush {tr.unlocked}")
+        # the close_notify / nothing else follows the application data; plain = application bytes only
+        lines.append(f"plain {core.hexs(bytes(peer.plain))}")
+        lines.extend(R.parse_wire(case["spec"], bytes(peer.plain)))
+    return lines
+
+
 def run_tls(case: dict) -> list[str]:
+    if case["target"] == "tlsserver":
+        return run_tls_server(case)
     trace = env.Trace()
     box: dict[str, Any] = {}
     spec = case["spec"]
@@ -176,6 +360,7 @@ def run_tls(case: dict) -> list[str]:
         tr = PipeTransport(backend, trace, env.Script([]), peer=peer, log=False)
         box["tr"] = tr
         trace.enabled = False
+        loop = asyncio.get_running_loop()
         if via_client:
             backend.transports.append(tr)
             backend.lock_names = ["", "tls.", "tlsrecv."]     # client send lock, TLS send lock, TLS recv lock
@@ -185,62 +370,218 @@ def run_tls(case: dict) -> list[str]:
             send = client.send_packet
             lock = backend.fair_locks[0]
             parked = lambda: lock.parked  # noqa: E731
+
+            def recv_of(r: dict):
+                return client.recv_packet
         else:
             backend.lock_names = ["tls.", "tlsrecv."]
             tls = await AsyncTLSStreamTransport.wrap(tr, contexts()[0], server_hostname="localhost")
             proto = R.build_protocol(spec)
             mode = case.get("mode", "iter")
+            ncall: dict[str, int] = {}
 
             async def send(packet: Any) -> None:
                 chunks = list(proto.generate_chunks(packet))
-                if mode == "join":
+                m = mode
+                if mode == "mixed":       # send_all and send_all_from_iterable mixed, per call
+                    who = env.cur()
+                    j = ncall.get(who, 0)
+                    ncall[who] = j + 1
+                    tid = int(who[1:]) if who[1:].isdigit() else 0
+                    ms = case["senders"][tid].get("modes", []) if tid < len(case["senders"]) else []
+                    m = ms[j] if j < len(ms) else "iter"
+                if m == "join":
                     await tls.send_all(b"".join(chunks))
                 else:
                     await tls.send_all_from_iterable(chunks)
 
             parked = lambda: set()  # noqa: E731
+
+            def recv_of(r: dict):
+                size = max(1, int(r.get("bufsize", 1024)))
+                if r.get("kind") == "recv_into":
+                    async def once() -> bytes:
+                        buf = bytearray(size)
+                        k = await tls.recv_into(buf)
+                        return bytes(buf[:k])
+                else:
+                    async def once() -> bytes:
+                        return await tls.recv(size)
+                return once
         if not peer.handshaken:
             raise core.InfraError("TLS handshake did not complete: " + str(peer.error))
+        tr.send_lock = next((lk for lk in backend.fair_locks if lk.name == "tls."), None)
         tr.script = env.Script(case["script"])
         trace.enabled = True
-        await R.Senders(case, trace, send, parked).run()
+        run = _Run(case, trace, tr, peer)
+        rtasks: list[asyncio.Task] = []
+
+        def start_readers(first: bool) -> None:
+            for k, r in enumerate(case.get("readers", [])):
+                if bool(r.get("first")) == first:
+                    rtasks.append(loop.create_task(run.reader(f"r{k}", r, recv_of(r), via_client), name=f"r{k}"))
+
+        start_readers(True)
+        ptask = loop.create_task(run.peer_task(), name="peer") if case.get("peer_msgs") else None
+        await R.Senders(case, trace, send, parked, on_started=lambda: start_readers(False)).run()
+        if ptask is not None:
+            await ptask
+        await run.sleep_until(run.end_tick())
         for lk in backend.fair_locks:
             if lk.name == "tls.":
                 trace.ev(f"tls.final {lk.state()}")
         trace.enabled = False
         tr.script = env.Script([])
+        if rtasks:
+            # the peer closes: every reader (parked or not) must come back with EOF
+            run.close_peer()
+            await asyncio.gather(*rtasks, return_exceptions=True)
         if via_client:
             await R._quiet(client.aclose())
         else:
             await R._quiet(tls.aclose())
 
     res, loop = env.run(main, trace)
-    lines = list(trace.lines)
-    if isinstance(res, env.Deadlock) or loop.deadlocked:
-        lines.append("deadlock")
-    peer = box.get("peer")
-    if peer is not None:
-        if peer.error:
-            lines.append(f"peer-error {peer.error}")
-        if box["tr"].overlap:
-            lines.append("note overlapping-flushes")
-        # the close_notify / nothing else follows the application data; plain = application bytes only
-        lines.append(f"plain {core.hexs(bytes(peer.plain))}")
-        lines.extend(R.parse_wire(spec, bytes(peer.plain)))
-    return lines
+    return _finish(case, trace, box, res, loop)
+
+
+def run_tls_server(case: dict) -> list[str]:
+    """the client object a request handler gets from AsyncTCPNetworkServer(ssl=...): senders are tasks started by
+    on_connection, the reader is the server's own request receiver (recv() for StreamProtocol, recv_into() for
+    BufferedStreamProtocol)"""
+    import logging
+
+    from easynetwork.exceptions import StreamProtocolParseError
+    from easynetwork.protocol import BufferedStreamProtocol
+    from easynetwork.servers.async_tcp import AsyncTCPNetworkServer
+    from easynetwork.servers.handlers import AsyncStreamRequestHandler
+    from vlib import sers
+
+    trace = env.Trace()
+    box: dict[str, Any] = {}
+    spec = case["spec"]
+
+    async def main() -> None:
+        backend = env.HBackend(trace, lock_kind=case.get("lock", "fair"))
+        peer = Peer(server_side=False)
+        box["peer"] = peer
+        tr = PipeTransport(backend, trace, env.Script([]), peer=peer, log=False)
+        box["tr"] = tr
+        tr.push(peer.start())
+        backend.listener_transports.append(tr)
+        backend.lock_names = ["tls.", "tlsrecv.", ""]     # TLS send lock, TLS recv lock, the client object's send lock
+        trace.enabled = False
+        loop = asyncio.get_running_loop()
+        finished = asyncio.Event()
+        gone = asyncio.Event()
+        run = _Run(case, trace, tr, peer)
+        per_gen = int(case.get("per_gen", 0))
+
+        async def job(client: Any, lock: Any) -> None:
+            try:
+                ptask = loop.create_task(run.peer_task(), name="peer") if case.get("peer_msgs") else None
+                await R.Senders(case, trace, client.send_packet, lambda: lock.parked).run()
+                if ptask is not None:
+                    await ptask
+                await run.sleep_until(run.end_tick())
+                for lk in backend.fair_locks:
+                    if lk.name == "tls.":
+                        trace.ev(f"tls.final {lk.state()}")
+            finally:
+                trace.enabled = False
+                tr.script = env.Script([])
+                finished.set()
+
+        class Handler(AsyncStreamRequestHandler):
+            nreq = 0
+
+            async def on_connection(self, client) -> None:
+                asyncio.current_task().set_name("srv")
+                lock = next(lk for lk in backend.fair_locks if lk.name == "")
+                tr.send_lock = next((lk for lk in backend.fair_locks if lk.name == "tls."), None)
+                tr.script = env.Script(case["script"])
+                trace.enabled = True
+                box["job"] = loop.create_task(job(client, lock), name="job")
+                # the senders may start while on_connection is still running (nobody reads yet)
+                await env.pause(int(case.get("oc_pause", 0)))
+
+            async def handle(self, client):
+                k = 0
+                while True:
+                    try:
+                        req = yield
+                    except StreamProtocolParseError as e:
+                        run.rd(f"rd.ret srv {Handler.nreq} parse-error-{type(e.error).__name__}")
+                    else:
+                        run.rd(f"rd.ret srv {Handler.nreq} {R.packet_hex(spec, req)}")
+                    Handler.nreq += 1
+                    k += 1
+                    if per_gen and k >= per_gen:
+                        return
+
+            async def on_disconnection(self, client) -> None:
+                gone.set()
+
+        if case.get("buffered") and sers.is_buffered(spec):
+            proto: Any = BufferedStreamProtocol(sers.build(spec))
+        else:
+            proto = R.build_protocol(spec)
+        logger = logging.getLogger("c12.tlsserver")
+        logger.disabled = True
+        server = AsyncTCPNetworkServer("127.0.0.1", 0, proto, Handler(), backend, ssl=contexts()[1], logger=logger)
+        stask = loop.create_task(server.serve_forever(), name="server")
+        fw = loop.create_task(finished.wait(), name="done")
+        await asyncio.wait([stask, fw], return_when=asyncio.FIRST_COMPLETED)
+        trace.enabled = False
+        gw = loop.create_task(gone.wait(), name="gone")
+        if finished.is_set() and not stask.done():
+            run.close_peer()
+            await asyncio.wait([stask, gw], return_when=asyncio.FIRST_COMPLETED)
+        await server.shutdown()
+        await server.server_close()
+        fw.cancel()
+        gw.cancel()
+        await asyncio.gather(stask, fw, gw, return_exceptions=True)
+        if not peer.handshaken:
+            raise core.InfraError("TLS handshake did not complete: " + str(peer.error))
+
+    res, loop = env.run(main, trace)
+    return _finish(case, trace, box, res, loop)
 
 
 # ------------------------------------------------------------------------------------------------
 # model side: the TLS flush machine (EasyNet.C12.TlsSys)
+#
+# A reader that flushes (`_retry_ssl_method`, SSLWantReadError branch: `if self._write_bio.pending and not …waiters:
+# await self.__flush_pending_writes()`) does exactly what a `send_all(b"")` caller does after its (empty) write to the
+# SSL object: take the send lock, send what is pending, release.  It is given to the model as one more caller
+# (task id = number of senders + reader index) whose packets are all empty; WHEN it flushes is the environment's
+# choice (the trace), what happens then is predicted by `tstep`.
 # ------------------------------------------------------------------------------------------------
+
+_RD_NAME = re.compile(r"\b(?:r(\d+)|srv)\b")
+
+
+def _is_reader(name: str) -> bool:
+    return name == "srv" or (name.startswith("r") and name[1:].isdigit())
+
+
+def _rd_tid(case: dict, name: str) -> int:
+    return len(case["senders"]) + (int(name[1:]) if name != "srv" else 0)
+
+
+def _rename(case: dict, ln: str) -> str:
+    n = len(case["senders"])
+    return _RD_NAME.sub(lambda m: f"s{n + int(m.group(1) or 0)}", ln)
+
 
 def _strip(case: dict, real: list[str]) -> list[str]:
     """the lines the TLS model reproduces: calls, the TLS send lock, flushes, outcomes, final plaintext"""
     out = []
     for ln in real:
-        if ln.startswith(("tlsrecv.", "cancel-req", "rx", "note ", "peer-error")):
+        if ln.startswith(("tlsrecv.", "cancel-req", "rx", "note ", "peer-error", "rd.", "peer.")):
             continue
-        if case["target"] == "tlsclient" and ln.startswith(("call ", "acq ", "rel ", "cancelled ", "final ", "send ", "sent ")):
+        if case["target"] in VIA_CLIENT and ln.startswith(("call ", "acq ", "rel ", "cancelled ", "final ", "send ", "sent ")):
             continue            # the client's own send lock and call boundaries (covered by the sender model on the
                                 # other targets); the TLS-level call starts at `tls.call`
         out.append(ln)
@@ -251,16 +592,26 @@ def real_for_diff(case: dict, real: list[str]) -> list[str]:
     from props import c12
 
     lines = _strip(case, real)
+    direct = case["target"] not in VIA_CLIENT
     res: list[str] = []
+    nflush: dict[str, int] = {}
+    cur: dict[str, int] = {}
     for i, ln in enumerate(lines):
         w = ln.split()
         if w[0] == "send":
             ln = " ".join(w[:3])
-        res.append(ln)
+        rdr = len(w) > 1 and _is_reader(w[1])
+        if rdr and w[0] == "tls.call" and direct:
+            cur[w[1]] = nflush.get(w[1], 0)
+            nflush[w[1]] = cur[w[1]] + 1
+            res.append(f"send s{_rd_tid(case, w[1])} {cur[w[1]]}")
+        res.append(_rename(case, ln))
         if w[0] == "tls.call":
             nxt = lines[i + 1].split() if i + 1 < len(lines) else []
             if not (len(nxt) >= 2 and nxt[0] == "tls.acq" and nxt[1] == w[1]):
-                res.append(f"tls.park {w[1]}")
+                res.append(_rename(case, f"tls.park {w[1]}"))
+        if rdr and w[0] == "tls.rel" and direct and w[1] in cur:
+            res.append(f"sent s{_rd_tid(case, w[1])} {cur.pop(w[1])} ok")
     return c12._unstar(case, res)
 
 
@@ -275,25 +626,34 @@ def model_input(case: dict, real: list[str]):
         for j, h in enumerate(s["packets"]):
             if done.get((f"s{i}", j)) == "ok":      # a call cancelled on the client lock never reaches the transport
                 pks.append(f"pk {i} {core.hexs(R.expected_chunks(case['spec'], h))}")
+    direct = case["target"] not in VIA_CLIENT
     ops: list[str] = []
     prev: list[str] = []
     for ln in _strip(case, real):
         w = ln.split()
-        t = c12._tid(w[1]) if len(w) > 1 else None
+        name = w[1] if len(w) > 1 else ""
+        t = c12._tid(name)
+        if t is None and _is_reader(name):
+            t = str(_rd_tid(case, name))
         k = w[0]
-        if k in ("sent", "tls.final", "plain", "tls.rel") or (k == "tls.call" and case["target"] != "tlsclient"):
+        if k in ("sent", "tls.final", "plain", "tls.rel"):
             pass
         elif t is None:
             ops.append("foreign " + ln)
         elif k == "send":
             ops.append(f"send {t}")
-        elif k == "tls.call" and case["target"] == "tlsclient":
-            ops.append(f"send {t}")
+        elif k == "tls.call":
+            if _is_reader(name):
+                pks.append(f"pk {t} -")             # a flush by a reader = a caller with nothing of its own to send
+                ops.append(f"send {t}")
+            elif not direct:
+                ops.append(f"send {t}")
         elif k == "tls.acq":
             if not (prev and prev[0] == "tls.call" and prev[1] == w[1]):
                 ops.append(f"resume {t}")
         elif k == "tls.xmit":
-            pass                      # part of the step that took the lock
+            if not (prev and prev[0] == "tls.acq" and prev[1] == w[1]):
+                ops.append("foreign " + ln)     # a flush that does not follow the grant of the send lock to that task
         elif k == "tls.ret":
             ops.append(f"ret {t}")
         else:
@@ -302,13 +662,43 @@ def model_input(case: dict, real: list[str]):
     return "c12tls", pks + ops
 
 
+def reader_window(real: list[str]) -> str | None:
+    """did a reader go through the SSLWantReadError branch of `_retry_ssl_method` (it asks for the TLS recv lock right
+    after the "flush pending writes first" step) while a sender was in the middle of a flush?
+    'window' : … and another sender was queued on the send lock (its ciphertext sits in the write BIO)
+    'midflush': … nobody queued"""
+    flushing: str | None = None
+    waiting: set[str] = set()
+    best: str | None = None
+    for ln in real:
+        w = ln.split()
+        if w[0] == "tls.xmit":
+            flushing = w[1]
+        elif w[0] == "tls.ret" and flushing == w[1]:
+            flushing = None
+        elif w[0] == "tls.call":
+            waiting.add(w[1])
+        elif w[0] in ("tls.acq", "tls.cancelled"):
+            waiting.discard(w[1])
+        elif w[0] == "tlsrecv.call" and _is_reader(w[1]) and flushing is not None:
+            if waiting:
+                return "window"
+            best = "midflush"
+    return best
+
+
 def nontrivial(case: dict, real: list[str]) -> str | None:
-    if case["target"] == "tlsclient":
+    rd = ""
+    if case.get("readers") or case.get("peer_msgs") or case["target"] == "tlsserver":
+        rd = "/rd-" + (reader_window(real) or "idle")
+    if case["target"] in VIA_CLIENT:
         from props import c12
 
-        canon = c12.canonical(case, [ln for ln in real if not ln.startswith(("tls.", "tlsrecv."))])
+        canon = c12.canonical(case, [ln for ln in real if not ln.startswith(("tls.", "tlsrecv.", "rd.", "peer."))])
         if any(ln.startswith("park ") for ln in canon):
-            return f"tlsclient/{case.get('lock', 'fair')}/park"
+            return f"{case['target']}/{case.get('lock', 'fair')}/park{rd}"
+        if rd and not rd.endswith("idle"):
+            return f"{case['target']}/{case.get('lock', 'fair')}/nopark{rd}"
         return None
     lines = real_for_diff(case, real)
     parked = any(ln.startswith("tls.park") for ln in lines)
@@ -320,4 +710,4 @@ def nontrivial(case: dict, real: list[str]) -> str | None:
         merged = True
     if not parked and not merged:
         return None
-    return f"{case['target']}/{case.get('lock', 'fair')}/" + ("merged-flush" if merged else "park")
+    return f"{case['target']}/{case.get('lock', 'fair')}/" + ("merged-flush" if merged else "park") + rd
